@@ -27,6 +27,8 @@ def scan_project(quick, thorough, ps):
 LOC = {"pkg": "jerr", "fn": "VerifH_LocationSpec", "quick": {"N": 4, "MIN": 0}, "thorough": {"N": 6, "MIN": 0}}
 LOC_LONG = {"pkg": "jerr", "fn": "VerifH_LocationLong", "quick": {}, "thorough": {}}
 TRACE1 = {"pkg": "jerr", "fn": "VerifH_ErrorTrace", "quick": {"N": 4}, "thorough": {"N": 6}}
+TRACE2 = {"pkg": "scanner", "fn": "VerifH_IncludeTrace", "quick": {"K": 5, "F": 2}, "thorough": {"K": 6, "F": 3}}
+STACKINV = {"pkg": "scanner", "fn": "VerifH_StackInvariant", "quick": {}, "thorough": {}}
 CTX = {"pkg": "core", "fn": "VerifH_ContextResolution", "quick": {"K": 4}, "thorough": {"K": 6},
        "stubsets": ["location"], "tabsets": ["kinds"]}
 
@@ -56,7 +58,7 @@ CHECKS = {
  },
  "C02": {
   "title": "Diagnostics are well located",
-  "harnesses": [LOC, LOC_LONG, TRACE1,
+  "harnesses": [LOC, LOC_LONG, TRACE1, TRACE2,
    next_total(3, 5, [0, 1, 5, 9, 12, 15]),
    scan_project({"N": 2, "M": 1}, {"N": 3, "M": 2}, [0, 1, 2, 7, 14, 16]),
   ],
@@ -78,6 +80,7 @@ CHECKS = {
   "harnesses": [
    {"pkg": "core", "fn": "VerifH_IncludePath", "quick": {"N": 4}, "thorough": {"N": 6}, "stubsets": ["vfs", "location"]},
    {"pkg": "core", "fn": "VerifH_IncludeTargetKinds", "quick": {"N": 3}, "thorough": {"N": 5}, "stubsets": ["vfs", "location"]},
+   STACKINV,
   ],
   "assumptions": [
    "os.Stat contract: the directory of the including file and its ancestors exist and are directories; any other path is absent, a directory, a regular file or fails otherwise",
